@@ -10,9 +10,28 @@ TECHNIQUE = "raises-clause and integer-size obligations on the pyvc paths of the
 RULE = _C01.RULE
 FUNCTIONS = _C01.FUNCTIONS + ["backend_concrete.bv.BVV.* (all operators)", "backend_concrete.bv.{Extract,Concat,ZeroExt,SignExt,Reverse,RotateLeft,RotateRight,SDiv,SMod,LShR,If}"]
 TRUSTED = _C01.TRUSTED
-ASSUMPTIONS = _C01.ASSUMPTIONS + ["float and string folding (fpToUBV assertion, regex metacharacters in StrPrefixOf, struct.pack overflow) are not under contract here: see C02/C03",
+ASSUMPTIONS = _C01.ASSUMPTIONS + ["float and string folding (fpToUBV assertion, regex metacharacters in StrPrefixOf, struct.pack overflow) are not under contract: the boundary-value runs of C02/C03 are repeated here for crashes only (bounded)",
                                   "termination is not verified"]
 
 
+def _crash_tasks(tier):
+    """bounded stand-in for the float and string constructors (their folding code is outside the proxies): the boundary-value runs of C02 / C03,
+    reporting crashes only (an exception that is not a ClaripyError while folding well-typed constants)"""
+    from vf import common
+    from vf.common import task
+    kl = sorted({l for p in ("C02", "C03", "C04") for f in common.findings_for(p) for l in f.get("labels", [])})
+    out = []
+    for sort in ("DOUBLE", "FLOAT"):
+        for g, n in (("arith", 2), ("unary-cmp", 1), ("conv", 1)):
+            for sh in range(n):
+                out.append(task("vf.bounded.fp_boundary", "run", f"fp.{g}[{sort}]/no-crash-bounded#{sh}", ["C04"], kind="bounded", replay="vf.bounded.fp_boundary:replay",
+                                sort=sort, group=g, budget_s=60 if tier == "quick" else 600, known_labels=kl, shard=sh, nshards=n, only="foreign-exception"))
+    for g, n in (("rel", 2), ("index", 2), ("misc", 1), ("esc", 1)):
+        for sh in range(n):
+            out.append(task("vf.bounded.str_boundary", "run", f"str.{g}/no-crash-bounded#{sh}", ["C04"], kind="bounded", replay="vf.bounded.str_boundary:replay",
+                            group=g, shard=sh, nshards=n, budget_s=60 if tier == "quick" else 600, known_labels=kl, only="foreign-exception"))
+    return out
+
+
 def tasks(tier, seed=0):
-    return _C01._simp_tasks(tier) + _C01._cbv_tasks(tier) + _C01._compose_tasks(tier, seed + 17)
+    return _C01._simp_tasks(tier) + _C01._cbv_tasks(tier) + _C01._compose_tasks(tier, seed + 17) + _crash_tasks(tier)
